@@ -134,6 +134,8 @@ let cond_str (c : condstack) =
 
 let status_exn (st : status) = match st with SExn c -> exn_name c | _ -> "-"
 
+(* the listing of the session (script_lines of main()), set when the case asks for it with ls=1; every state dump is then followed by the marked line *)
+let cur_listing : z list list option ref = ref None
 let dump_env id k ret exn (v : ienv) =
   let e = v.i_e in
   let slen = List.length e.e_script in
@@ -145,7 +147,18 @@ let dump_env id k ret exn (v : ienv) =
     id k ret (hexlist (List.rev e.e_stack)) (hexlist (List.rev e.e_alt)) (cond_str e.e_cond) pc cb
     (string_of_z e.e_ops) (string_of_z e.e_pos) (string_of_z v.i_seq) (if v.i_done then 1 else 0)
     (string_of_z e.e_err) exn (string_of_z e.e_ed.ed_codesep_pos) wl (hexitem e.e_script)
-    (if v.i_p2sh then 1 else 0) (hexitem v.i_succ) tce (List.length v.i_hist)
+    (if v.i_p2sh then 1 else 0) (hexitem v.i_succ) tce (List.length v.i_hist);
+  match !cur_listing with
+  | None -> ()
+  | Some lines -> Printf.printf "R %s M#%d %s\n" id k (match marked_line lines v.i_seq with Some l -> hexitem l | None -> "none")
+
+let set_listing id h (c : cfg) (v : ienv) =
+  cur_listing := None;
+  if geti h "ls" 0 <> 0 then begin
+    let lines = session_listing c v in
+    Printf.printf "R %s L %s\n" id (String.concat "," (List.map hexitem lines));
+    cur_listing := Some lines
+  end
 
 let run_cmds id (c : cfg) (v0 : ienv) (cmds : string) =
   let v = ref v0 in
@@ -226,6 +239,7 @@ let do_script h =
     let v = setup_env c scr st (unhex (get h "succ" "")) ed None in
     if not v.i_operational then Printf.printf "R %s setupfail err=%s\n" id (string_of_z v.i_e.e_err)
     else begin
+      set_listing id h c v;
       dump_env id 0 1 "-" v;
       run_cmds id c v (get h "cmds" "")
     end
@@ -387,6 +401,7 @@ let do_spend h =
              Printf.printf "R %s cfg sv=%s idx=%s vout=%s amount=%s pre=%d annex=%d\n" id (string_of_z ss.ss_sigver) (string_of_z idx) (string_of_z vout)
                (string_of_z ss.ss_amount) (if ss.ss_preamble then 1 else 0)
                (if ss.ss_ed.ed_annex_init then (if ss.ss_ed.ed_annex_present then 1 else 0) else -1);
+             set_listing id h c v;
              dump_env id 0 1 "-" v;
              run_cmds id c v (get h "cmds" "")
            end)
